@@ -39,6 +39,33 @@ CHECKS = {
  'C18': ('exploration', 'runtime monitoring from outside the process: exit status, panic marker and liveness probe of nodes fed hostile inputs (CheckTx and byzantine delivery on forks)',
          'Held on every input executed: structure-aware hostile transactions of every kind, JSON-structure mutations, raw byte strings, hostile embedded Ethereum transactions and OLVM programs/fields neither killed the node nor triggered the handlePanic shutdown, and a plain transfer still worked afterwards.',
          'Batches of 8 inputs per fork, bisected to single inputs on failure.', 'DESIGN.md 7 C18'),
+ 'C10': ('exploration', 'runtime monitoring: Tendermint\'s own acceptance of the updates (ApplyBlock) + statement-level election monitor over the previous block\'s decoded records + convergence comparison after quiet tails',
+         'Held on every block observed: Tendermint accepted every update set; every positive-power update named a validator that in the previous block\'s records had at least the minimum stake, was not frozen and carried that stake as power; never more than the top count; no eligible higher-stake validator left out; after five quiet blocks Tendermint\'s set equalled the election computed from the dump.',
+         'Either reading (previous/current block) of an option changed in the block is accepted; ties at the boundary accepted either way.', 'DESIGN.md 7 C10'),
+ 'C11': ('exploration', 'runtime monitoring: statement-level stake-lifecycle accumulator driven by the successful transactions, compared with the decoded stake records every block',
+         'Held on every block observed: cumulative withdrawals never exceeded the unstakes that had reached unstake height + maturity, nor staked minus penalties; no stake/unstake/withdraw succeeded on a validator frozen before and after the block; every validator total equalled the sum of its delegators\' locked amounts.',
+         'Loosest reading of the maturity boundary; penalties derived from stake decreases not explained by the block\'s transactions.', 'DESIGN.md 7 C11'),
+ 'C12': ('exploration', 'runtime monitoring: pool/active-set invariants over the dump + one-to-one matching of obligations (from successful transactions and genesis-seeded pending entries) against the payments BeginBlock reports',
+         'Held on every block observed: pool balance >= (== without direct donors) the sum of active delegations; the active set changed exactly by the block\'s delegate/reinvest/undelegate transactions; every payment BeginBlock reported discharged obligations due at exactly that height, every due obligation was paid, pending entries were cleared.',
+         'Payments are read from the deleg_undelegate / deleg_rewards_mature_* event attributes; event-less payments are caught by the C02/C03 ledger rules.', 'DESIGN.md 7 C12'),
+ 'C13': ('exploration', 'runtime monitoring: dump deltas against the bounds the property states + a twin node restarted inside calculation cycles (reward event and app hash compared)',
+         'Held on every block observed: credited rewards (validator chunks + delegator balances) never exceeded the amount accounted as consumed, which never exceeded what was left of the reward year at the start of the cycle (or the burnout rate capped by the pool); cumulative validator withdrawals never exceeded the matured chunks; a node restarted at random points inside cycles reported the same per-block rewards and app hash.',
+         'No re-derivation of the per-block formula; the matured-chunk clause assumes a constant reward interval.', 'DESIGN.md 7 C13'),
+ 'C14': ('exploration', 'runtime monitoring: per-proposal lifecycle automaton over store/status/outcome across dumps, outcome recomputed from the recorded votes with exact rationals, exact escrow accounting, option records compared block to block',
+         'Held on every block observed: proposals only moved forward along the allowed transitions, entered voting only with the goal met before the funding deadline, passed/failed as the recorded votes say, expired only after the voting deadline; option records changed only when a passed configuration proposal was finalised; escrow changed exactly by contributions/withdrawals and was emptied once at finalisation; no funder withdrew more than it contributed; honest refund requests on cancelled/missed proposals were not refused.',
+         'Outsiders sending expire/finalize transactions and late-staked validators voting are part of the workload.', 'DESIGN.md 7 C14'),
+ 'C15': ('exploration', 'runtime monitoring: statement-level tracker model (vote-slot replay, thresholds, wrapped-balance matching, store exclusivity, supply counter) over the decoded tracker records and balances',
+         'Held on every block observed: vote slots changed only by the recorded witness for its own slot, first vote; releases/failures only with more than two thirds of the recorded witnesses; every wrapped-balance change equalled confirmed locks/refunds credited to the submitter minus that owner\'s redeems; no external transaction in two stores; supply counter == circulation.',
+         'The harness plays users and witnesses with locally signed Ethereum transactions; ERC-20 redeem completion is unreachable in the tree (token lookup by the wrong address) and only its debit is covered.', 'DESIGN.md 7 C15'),
+ 'C17': ('exploration', 'runtime monitoring: per-transaction ledger deltas from the dump + balances/nonces read through the EVM adapter (private copy) after every block compared with the native records',
+         'Held on every block observed: for executed OLVM transactions the sender lost gasUsed x price (+ value), its nonce rose by one, plain-transfer recipients got the value moved, the fee records grew by gas used x price of all executed transactions; OLVM transactions failing the consensus pre-checks (delivered by a byzantine proposer) changed nothing; the EVM view of every account equalled its native record.',
+         'Half of the histories carry at most one OLVM transaction per block for attribution.', 'DESIGN.md 7 C17'),
+ 'C19': ('exploration', 'runtime monitoring: statement-level tally with exact rationals over the decoded allegation/freeze/stake records and the block\'s successful votes',
+         'Held on every block observed: every guilty/innocent verdict was backed by yes/no votes of distinct active validators above the configured share (required = ceil(active x vote share)); no validator counted twice; guilty validators lost exactly the configured (rounded) percentage, the bounty program received at most its share, they got no positive-power update and could not stake/unstake/withdraw until released, releases respected the release time; non-active accounts could not open or vote.',
+         'active = validators elected in the block of the tally (mechanism text).', 'DESIGN.md 7 C19'),
+ 'C20': ('exploration', 'runtime monitoring: statement-level registry over the decoded domain records and ledger deltas, block to block',
+         'Held on every block observed: every change of owner/beneficiary/sale status/price/address/sub-names was backed by a successful transaction signed by the previous owner (or the parent\'s owner for sub-names) or by a purchase meeting the asking/base price with the seller paid; every new or moved expiry equalled the blocks the payment buys; one record per name.',
+         'The height an expiry is counted from may be the previous or the current block; option record in force before or after the block accepted.', 'DESIGN.md 7 C20'),
 }
 
 NOT_YET = {}
